@@ -36,11 +36,11 @@ E1_NOTE = 'One node (Memory broker/presence), 1-2 connections, 2-3 concurrent op
 def e1(i, what, text):
     claim(i, 'E1', 'stateless DFS over thread interleavings of the real Node/Client/Hub code under a controlled scheduler (preemption + timer-first + environment-answer deviations bounded, HB-state caching): ' + what, text, E1_NOTE)
 e1('C04', 'client/server subscribe, unsubscribe, disconnect with sync/async callbacks and the 5 s wait gate', 'Every interleaving up to the bound of the listed operation threads on one connection; after settling a marker publication must reach the connection iff it reports itself subscribed, and the hub must hold exactly one generation-matched routing entry iff subscribed.')
-e1('C05', 'close (Disconnect / Node.Disconnect / transport close) placed at every point of subscribe, server-side subscribe, presence tick', 'Every close point within the bound; after settling the node must hold no hub, routing, presence or client-state entry of the closed connection and the connection/subscription gauges must be back to their earlier values.')
+e1('C05', 'close (Disconnect / Node.Disconnect / transport close / write error / slow consumer / stale timer) placed at every point of connect with server-side subscriptions, subscribe, map subscribe (state, stream, live, ephemeral), shared-poll subscribe and track, presence tick', 'Every close point within the bound; after settling the node must hold no hub, routing, presence or client-state entry of the closed connection and the connection/subscription gauges must be back to their earlier values.')
 e1('C06', 'presence ticks against subscribe/unsubscribe/close', 'Every interleaving within the bound; at quiescence the channel presence contains the connection iff it holds a subscription with presence, and presence stats count distinct clients/users.')
 e1('C07', 'subscribe completion against unsubscribe/disconnect, observed by a second subscriber', 'Every interleaving within the bound; the observer\'s join/leave pushes for the actor must alternate starting with join, end consistently with the final subscription state, and match the number of established/ended subscriptions.')
-e1('C08', 'connect, alive ticks, unsubscribe, server disconnect, transport close', 'Every interleaving within the bound; the callback log must show disconnect at most once and after connect, no alive after disconnect and one unsubscribe callback per established subscription that ended. Node shutdown: a connect racing Shutdown (delay-bounded schedule exploration) and connection attempts after Shutdown through the generic API, the SSE handler and the HTTP-stream handler must never end up connected (WebSocket upgrade path not driven).')
-e1('C10', 'publications / joins of other connections against subscribe and unsubscribe (client and server side, positioned and not)', 'Every interleaving within the bound; on the connection\'s frame log no publication/join/leave for the channel may appear outside a subscription bracket. Per-channel batching variants are not yet covered.')
+e1('C08', 'connect, alive ticks, unsubscribe, server disconnect, transport close', 'Every interleaving within the bound; the callback log must show disconnect at most once and after connect, no alive after disconnect and one unsubscribe callback per established subscription that ended. Node shutdown: a connect racing Shutdown (delay-bounded schedule exploration under two default thread orders, oldest-first and newest-first) and connection attempts after Shutdown through the generic API, the SSE handler and the HTTP-stream handler must never end up connected (WebSocket upgrade path not driven).')
+e1('C10', 'publications / joins of other connections against subscribe and unsubscribe (client and server side, positioned and not)', 'Every interleaving within the bound; on the connection\'s frame log no publication/join/leave for the channel may appear outside a subscription bracket. Harness bracketbatch adds per-channel batching (MaxSize / MaxDelay / both / FlushLatestPublication / none) x ReplyWithoutQueue x positioned on the client and server paths with the virtual clock driving the batch timers.')
 claim('C02', 'E2', 'exhaustive enumeration of channel histories (publish/remove/TTL/meta-TTL over a virtual clock, depth-bounded) x subscribe probes on the real Node against a reference log',
       'Every history up to the stated depth is built on a real node under the virtual clock and probed with every (offset, epoch, limit, filter, reject flag) combination; recovered=true must mean the exact admitted suffix, recovered=false no publications.',
       'One channel, Memory broker, histories of depth <= 4-5, HistorySize 1-3.')
@@ -83,8 +83,8 @@ claim('C30', 'E2', 'exhaustive enumeration of write APIs x boundary sizes x buff
 claim('C31', 'E2', 'exhaustive enumeration of upgrade header combinations, received close frames (every code, reason classes), close event sequences and websocketTransport.Close codes x reason lengths on the real code against reference predicates',
       'Full products of the listed header/code/reason domains; acceptance, accept key, negotiated values, close frame presence/content and first-close-wins recording must match the references.',
       'Harness ResponseWriter/Hijacker; real clock with stall re-run guard.')
-claim('C32', 'E2', 'exhaustive enumeration of JSON payload texts (length <= 4-6 over a structural alphabet incl. CR/LF) and binary payloads through the real SSE and HTTP-stream handlers against reference EventSource / NDJSON / varint parsers',
-      'Every payload and batch in the domain is published to a connection served by the real ServeHTTP; the reference parser must see exactly one record per message decoding to the same message.',
+claim('C32', 'E2+E1', 'exhaustive enumeration of JSON payload texts (length <= 4-6 over a structural alphabet incl. CR/LF) and binary payloads through the real SSE and HTTP-stream handlers against reference EventSource / NDJSON / varint parsers; stateless DFS (preemption bound 1-2) over two connections writing concurrently',
+      'Every payload and batch in the domain is published to a connection served by the real ServeHTTP; the reference parser must see exactly one record per message decoding to the same message. Two-connection variants: every interleaving within the bound of two connections\' write paths, including a write held up inside ResponseWriter.Write while the other connection writes; each connection must receive exactly its own messages.',
       'Handlers run under the scheduler with a harness ResponseWriter; net/http itself is not in the loop.')
 
 claim('C13', 'E1+E2', 'exhaustive operation sequences and stateless DFS over producer / timer / delWriter / Close interleavings of the real per-channel batch writer with a recording flush function',
